@@ -43,9 +43,9 @@ def bath_spec(draw, d, rotated=None, distinct_if_rotated=True, temps=None, custo
 
 
 @st.composite
-def params_spec(draw, d, tier="quick", n_min=1, n_max=None, min_dkmax=1, eps=None, allow_none=True):
+def params_spec(draw, d, tier="quick", n_min=1, n_max=None, min_dkmax=1, eps=None, allow_none=True, long_runs=False):
     N, K, tau = draw(gens.tempo_shape(d, tier, n_min=n_min, n_max=n_max, min_dkmax=min_dkmax,
-                                      allow_none=allow_none))
+                                      allow_none=allow_none, long_runs=long_runs))
     return {"N": N, "K": K, "tau": tau,
             "dt": draw(st.sampled_from(gens.DTS)),
             "eps": draw(st.sampled_from(eps or gens.EPSRELS)),
